@@ -478,6 +478,13 @@ func runC05(c *Ctx) {
 			}
 			ins := append(append(append([]byte{}, doc[:pos]...), c05Alphabet[c.Rng.Intn(len(c05Alphabet))]), doc[pos:]...)
 			c05Verdicts(c, ins, true)
+			// every structural byte inserted at every position (trailing commas, stray brackets, …)
+			if i%4 == 0 || c.Thorough() {
+				for _, sb := range []byte(",:]}[{\"0") {
+					ins := append(append(append([]byte{}, doc[:pos]...), sb), doc[pos:]...)
+					c05Verdicts(c, ins, true)
+				}
+			}
 		}
 	}
 	// depth limit neighbourhood
